@@ -120,6 +120,24 @@ Theorem C35_future_ignored : forall now files s e l i s',
 Proof. intros. eapply load_trcs_origin; eauto. Qed.
 Print Assumptions C35_future_ignored.
 
+(** Loading from disk never removes a stored TRC, so (with [C35_latest_is_greatest])
+    the latest TRC of an ISD never regresses through LoadTRCs either. *)
+Theorem C35_load_keeps_store : forall now files s e l i s',
+  load_trcs now files s [] [] = (e, l, i, s') -> forall t, In t s -> In t s'.
+Proof. intros. eapply load_trcs_grows; eauto. Qed.
+Print Assumptions C35_load_keeps_store.
+
+Theorem C35_load_no_regress : forall now files s e l i s' isd l0,
+  load_trcs now files s [] [] = (e, l, i, s') -> latest_trc s isd = Some l0 ->
+  exists l1, latest_trc s' isd = Some l1 /\ id_le l0 l1 = true.
+Proof.
+  intros now files s e l i s' isd l0 H L. destruct (latest_in _ _ _ L) as [Hin Hi].
+  assert (Hin' : In l0 s') by (eapply load_trcs_grows; eauto).
+  destruct (latest_some s' isd l0 Hin' Hi) as (l1 & L1). exists l1. split; auto.
+  eapply latest_max; eauto.
+Qed.
+Print Assumptions C35_load_no_regress.
+
 (** The oracles evaluated on the implementation's observations hold on the model. *)
 Theorem C35_oracle_history_holds_on_model : forall init ops,
   hist_oracle init ops (trace verify_update init ops) = true.
@@ -160,3 +178,16 @@ Proof.
   apply C35_chain_invariant; auto.
   intros x [<-|[]] Hb. vm_compute in Hb. discriminate.
 Qed.
+
+(** Non-vacuity of [C35_future_ignored] / [C35_load_keeps_store]: a directory with
+    serial 2, a TRC of the future (serial 4, valid from 500), serial 3, a garbage
+    file and serial 4, loaded at time 50 into the store {1}: 2 and 3 are loaded,
+    the future TRC is ignored, the garbage file stops the load with an error
+    (the last file is never read), serial 1 is still there. *)
+Example C35_load_example :
+  let fut := mkt 99 1 1 4 500 900 0 [] 1 1 in
+  (let '(e, l, i, s) := load_trcs 50 [(1, FTRC (Ex.t 2 1)); (2, FTRC fut); (3, FTRC (Ex.t 3 1)); (4, FBad);
+                                       (5, FTRC (Ex.t 4 1))] [Ex.t 1 1] [] [] in
+   (e, l, i, map t_serial s, latest_key s 1))
+  = (true, [1; 3], [2], [1; 2; 3], [1; 1; 3; 13]).
+Proof. vm_compute. reflexivity. Qed.
